@@ -739,11 +739,17 @@ branch_harness!(c10_branch_build_f2, branch_build_case(Some(2), 2));
 // @harness props=C04 tier=quick timeout=1500 mem=16 stubbing=1 replay=native
 // @desc BranchAccessor::child_for_key routes an arbitrary query to the first child whose separator is >= the query (a query equal to the separator goes left) and returns that child's page number
 // @functions BranchAccessor::{child_for_key,key,child_page}, <&[u8] as Key>::compare
-// @bound 1 key / 2 children; separator of 3 or 0 bytes (variable) or 2 bytes (fixed), query 0..=3 bytes, all bytes arbitrary
+// @bound 1 key / 2 children; fixed-width separator of 2 bytes, query 0..=3 bytes, all bytes arbitrary
 // @stubs xxh3_checksum -> unused; crate::panicking -> false; alloc::fmt::format -> empty
+branch_harness!(c04_branch_route_f2, branch_route_case(Some(2), 2));
+
+// @harness props=C04 tier=thorough timeout=7200 mem=32 stubbing=1 replay=native
+// @desc as c04_branch_route_f2 for variable-width separators of 3 and 0 bytes (attempted: did not close in 1500 s in the quick tier)
+// @functions BranchAccessor::{child_for_key,key,key_end,child_page}, <&[u8] as Key>::compare
+// @bound 1 key / 2 children; variable-width separator of 3 or 0 bytes, query 0..=3 bytes, all bytes arbitrary
+// @stubs crate::panicking -> false; alloc::fmt::format -> empty
 branch_harness!(c04_branch_route_v3, branch_route_case(None, 3));
 branch_harness!(c04_branch_route_v0, branch_route_case(None, 0));
-branch_harness!(c04_branch_route_f2, branch_route_case(Some(2), 2));
 
 // @harness props=C10 tier=quick timeout=1500 mem=16 stubbing=1 replay=native
 // @desc BranchMutator::write_child_page(j) (the page-level step of checksum finalisation) rewrites exactly the j-th child checksum and page number of an arbitrary branch page and nothing else
